@@ -339,6 +339,54 @@ func runC06(r *Run) {
 	}
 	r.Floor("R3b", "decorators that scan messages", nScan, 11)
 
+	// ---------- R3c: a scan looks at every message ----------
+	r.Rule("R3c", "PATH.scan-complete: in app/ante every loop over the transaction's messages (a range over GetMsgs() / a []sdk.Msg parameter / GetMessages()) can be left towards success (a call of next, or a nil-error return of a helper) only through the loop's own termination test — no break/return-success from the body, so a message placed after an innocuous one is still examined")
+	nLoops := 0
+	for _, fn := range P.Funcs {
+		if !strings.HasPrefix(fnPkgPath(fn), haqqMod+"/app/ante") || isTestSupport(P, fn) || fn.Synthetic != "" {
+			continue
+		}
+		for _, h := range fn.Blocks {
+			ifi, ok := lastIf(h)
+			if !ok || !isLoopHeader(h) {
+				continue
+			}
+			bo, ok := ifi.Cond.(*ssa.BinOp)
+			if !ok || bo.Op != token.LSS {
+				continue
+			}
+			lc, ok := bo.Y.(*ssa.Call)
+			if !ok {
+				continue
+			}
+			if b, ok := lc.Call.Value.(*ssa.Builtin); !ok || b.Name() != "len" {
+				continue
+			}
+			x := lc.Call.Args[0]
+			isMsgs := false
+			if sl, ok := x.Type().Underlying().(*types.Slice); ok && namedName(sl.Elem()) == "Msg" {
+				isMsgs = true
+			}
+			if !isMsgs {
+				continue
+			}
+			nLoops++
+			body := loopBody(h)
+			var target func(ssa.Instruction) bool
+			if fn.Name() == "AnteHandle" || fn.Parent() != nil {
+				nx := nextCallPred(outermost(fn))
+				target = func(in ssa.Instruction) bool { return (nx != nil && nx(in)) || isSuccessExit(in) }
+			} else {
+				target = isSuccessExit
+			}
+			// leave the loop only through the header's exit edge: delete it and ask whether success is still reachable from the body
+			w := PathQuery{Fn: fn, StartBlock: h.Succs[0], Target: func(in ssa.Instruction) bool { return !body[in.Block()] && target(in) }, DelEdge: edgeSet([]Edge{{h, 1}})}.Search()
+			r.Check(w == nil, "R3c", fmt.Sprintf("%s#loop@%s", fnID(fn), h.Comment), P.Pos(instrPos(ifi)), "the message loop is left towards success only by running to its end",
+				"a loop over the transaction's messages can be left early towards success (break / early return): messages after that point are never examined — e.g. a disabled or Ethereum message placed behind an innocuous one passes", P.witness(w)...)
+		}
+	}
+	r.Floor("R3c", "message loops in app/ante", nLoops, 8)
+
 	// ---------- R4 ----------
 	if rj, ok := P.FnOK("(app/ante/cosmos.RejectMessagesDecorator).AnteHandle"); ok {
 		as := typeAssertsTo(rj, "x/evm/types", "MsgEthereumTx")
